@@ -196,6 +196,10 @@ def main(ctx):
         raise vlib.CheckError("scenario generator failed: %s" % (ro.error or "")[:1500])
     budget = 1100 if quick else 14000
     cases = sample_cases(ro.exports, rnd, budget)
+    # scenarios behind the > 30000 blocks of waiting (thorough only): a bounded number, cheapest deviations first
+    isdeep = lambda c: any(o["m"] == "longwait" for o in c["path"][:-1])
+    deep = sorted([c for c in cases if isdeep(c)], key=lambda c: (dev(c["c"], c["path"][-1]), json.dumps(c["path"][-1])))
+    cases = [c for c in cases if not isdeep(c)] + deep[:150]
     nwalk = 30 if quick else 400
     rs = vlib.tlc(ctx, "ContractOps.tla", "MC_ContractOps_sim.cfg", workers=1, timeout=1800,
                   extra=["-simulate", "num=%d" % (nwalk * 2), "-depth", "24", "-seed", str(ctx.seed)], simulate=True)
@@ -211,16 +215,36 @@ def main(ctx):
         for c in cases + walks:
             f.write(json.dumps(c) + "\n")
 
-    # 3. the real code
-    trace = ctx.path("trace.ndjson")
-    summ = ctx.path("summary.json")
-    p = vlib.run_driver(ctx, drv, ["-cases", cpath, "-out", trace, "-summary", summ], timeout=3400)
-    if p.returncode != 0:
-        out = (p.stdout or "")[-3000:]
-        raise vlib.CheckError("driver failed:\n" + out)
-    ctx.log((p.stdout or "").strip().splitlines()[-1] if p.stdout else "")
-    stats = json.load(open(summ))
-    rows = vlib.read_ndjson(trace)
+    # 3. the real code: the scenarios are cut into batches (sorted, so that shared prefixes stay together),
+    #    one driver process per batch (a node is never freed: its goroutines run forever), in parallel
+    allc = sorted(cases + walks, key=lambda c: (c["c"], c["w"], json.dumps(c["path"])))
+    nb = 3 if quick else 10
+    per = (len(allc) + nb - 1) // nb
+    batches = [allc[i:i + per] for i in range(0, len(allc), per)]
+
+    def run_batch(bi):
+        wd = os.path.dirname(ctx.path("wd_%d" % bi, "x"))
+        cp = ctx.path("cases_%d.ndjson" % bi)
+        with open(cp, "w") as f:
+            for c in batches[bi]:
+                f.write(json.dumps(c) + "\n")
+        tp, sp = ctx.path("trace_%d.ndjson" % bi), ctx.path("summary_%d.json" % bi)
+        pr = vlib.run([drv, "-cases", cp, "-out", tp, "-summary", sp], cwd=wd,
+                      env={"VERIF_SEED": str(ctx.seed * 1000 + bi), "VERIF_TIER": ctx.tier}, timeout=3400, check=False)
+        return bi, pr, tp, sp
+    with concurrent.futures.ThreadPoolExecutor(max_workers=max(1, min(nb, ctx.cores // 2))) as ex:
+        results = list(ex.map(run_batch, range(len(batches))))
+    stats = collections.Counter()
+    rows = []
+    for bi, pr, tp, sp in results:
+        if pr.returncode != 0:
+            out = (pr.stdout or "")[-3000:]
+            raise vlib.CheckError("driver failed on batch %d (rc=%d):\n%s" % (bi, pr.returncode, out))
+        for k, v in json.load(open(sp)).items():
+            stats[k] += v
+        rows += vlib.read_ndjson(tp)
+    ctx.log("real chain: %d scenarios in %d driver processes, %d operations, %d ok / %d failed contract transactions, %d refused by validation, %d trace lines"
+            % (stats["cases"], len(batches), stats["ops"], stats["tx_ok"], stats["tx_fail"], stats["rejected"], len(rows)))
     txs = [x for x in rows if x["ev"] == "Tx"]
 
     # vacuity: the driver must have reached the behaviours the property talks about
